@@ -649,7 +649,7 @@ def install_more(models):
             return opt(d.as_long() if z3.is_bv_value(d) else SV(d, 32))
         return opt(None)
 
-    @R(r"^core::str::<impl str>::(contains|starts_with|ends_with|find)::<char>$")
+    @R(r"^core::str::<impl str>::(contains|starts_with|ends_with|find|rfind)::<char>$")
     def _char_pred(ex, c, a):
         sl = as_slice(a[0]); pat = a[1]
         chars = sl.chars()
@@ -663,6 +663,11 @@ def install_more(models):
             return bool(chars) and eq(chars[0])
         if "ends_with" in c:
             return bool(chars) and eq(chars[-1])
+        if "rfind" in c:
+            for k in range(len(chars) - 1, -1, -1):
+                if eq(chars[k]):
+                    return opt(span_len(sl.s, sl.lo, sl.lo + k))
+            return opt(None)
         for k, ch in enumerate(chars):
             if eq(ch):
                 return True if "contains" in c else opt(span_len(sl.s, sl.lo, sl.lo + k))
